@@ -27,6 +27,8 @@ pub struct Lin<'a> {
     ev: &'a [Event],
     /// for each event, the events that must be done before it may step
     pred: Vec<Vec<usize>>,
+    /// events whose first step must already have happened before this one starts (scripted scenarios)
+    begun_pred: Vec<Vec<usize>>,
     /// StreamNext events that happen after the thread's stream ended
     dead_stream: Vec<bool>,
     seen: HashSet<St>,
@@ -60,8 +62,19 @@ impl<'a> Lin<'a> {
         let mut pred = vec![vec![]; n];
         for i in 0..n {
             for j in 0..n {
-                if i != j && (ev[j].t1 < ev[i].t0 || (ev[j].th == ev[i].th && ev[j].idx < ev[i].idx)) {
+                // same thread: program order, except that a scripted future's single event overlaps the later calls of its owner
+                if i != j && (ev[j].t1 < ev[i].t0 || (ev[j].th == ev[i].th && ev[j].idx < ev[i].idx && ev[j].t1 <= ev[i].t0)) {
                     pred[i].push(j);
+                }
+            }
+        }
+        let mut begun_pred = vec![vec![]; n];
+        for i in 0..n {
+            for j in 0..n {
+                if let Some(rt) = ev[j].reg_t {
+                    if i != j && rt < ev[i].t0 {
+                        begun_pred[i].push(j);
+                    }
                 }
             }
         }
@@ -71,7 +84,7 @@ impl<'a> Lin<'a> {
                 dead_stream[i] = ev.iter().any(|e| e.th == ev[i].th && e.idx < ev[i].idx && e.op == Op::StreamNext && e.res == Res::NoneV);
             }
         }
-        Lin { ev, pred, dead_stream, seen: HashSet::new(), unique, budget, states: 0, deepest: vec![], trail: vec![] }
+        Lin { ev, pred, begun_pred, dead_stream, seen: HashSet::new(), unique, budget, states: 0, deepest: vec![], trail: vec![] }
     }
 
     pub fn check(&mut self, init: RefChan) -> LinResult {
@@ -328,7 +341,7 @@ impl<'a> Lin<'a> {
             if st.ph[i] == 2 {
                 continue;
             }
-            if st.ph[i] == 0 && !self.pred[i].iter().all(|j| st.ph[*j] == 2) {
+            if st.ph[i] == 0 && (!self.pred[i].iter().all(|j| st.ph[*j] == 2) || !self.begun_pred[i].iter().all(|j| st.ph[*j] >= 1)) {
                 continue;
             }
             for nx in self.steps(&st, i) {
